@@ -540,14 +540,17 @@ Proof.
     + destruct (var_lookup vars name); [discriminate|].
       destruct (if ty =? 0 then (8, 1) else if ty =? 1 then (16, 2) else (32, 4)) as [nb sd].
       destruct (write_vals m nb sd (align4 a) vals ln) as [[m1 a1]|e] eqn:E; [|discriminate].
+      destruct (_ >? data_limit); [discriminate|].
       rewrite (IH _ _ _ _ _ H). exact (write_vals_shell _ _ _ _ _ _ _ _ E).
     + destruct (var_lookup vars name); [discriminate|].
       destruct (write_chars m (align4 a) (strip_quotes s)) as [[m1 a1]|e] eqn:E; [|discriminate].
       destruct (dwrite m1 8 a1 0) as [m2|e] eqn:E2; [|discriminate].
+      destruct (_ >? data_limit); [discriminate|].
       rewrite (IH _ _ _ _ _ H), (dwrite_shell _ _ _ _ _ E2).
       exact (write_chars_shell _ _ _ _ _ E).
     + destruct (var_lookup vars name); [discriminate|].
-      destruct (py_int10 v) as [n|]; [|discriminate]. exact (IH _ _ _ _ _ H).
+      destruct (py_int10 v) as [n|]; [|discriminate].
+      destruct (_ >? data_limit); [discriminate|]. exact (IH _ _ _ _ _ H).
 Qed.
 
 (* the assembler only writes data memory directly *)
